@@ -316,6 +316,12 @@ class Renderer:
                                 else 'PUSH'), '~', '{')
             self.block(n[1])
             self.emit('}')
+        elif t == 'comptime_exec':
+            self.features.add('comptime-exec')
+            self.emit(self.case('OP_PUSH' if not self.chance('bare')
+                                else 'PUSH'), '~!', '{')
+            self.block([['push', v] for v in n[1]])
+            self.emit('}')
         elif t == 'comment':
             d = '#'
             self.emit(d, *n[1], d)
